@@ -67,6 +67,16 @@ impl Sub for FromSequences {
         let f = with_abc!(case.abc, A => {
             let encoded: Vec<EncodedSequence<A>> = case.seqs.iter().map(|s| EncodedSequence::new(syms::<A>(s))).collect();
             let res = CountMatrix::<A>::from_sequences(encoded.iter());
+            // the FromIterator route is the same construction
+            let collected: Result<CountMatrix<A>, _> = encoded.iter().cloned().collect();
+            let same_route = match (&res, &collected) {
+                (Ok(a), Ok(b)) => a.len() == b.len() && a.sequence_count() == b.sequence_count() && (0..a.len()).all(|i| a.matrix()[i][..] == b.matrix()[i][..]),
+                (Err(_), Err(_)) => true,
+                _ => false,
+            };
+            if !same_route {
+                Some(Failure::new("from_sequences:FromIterator", "collect::<Result<CountMatrix, _>>() differs from from_sequences()".to_string()))
+            } else {
             match (equal, res) {
                 (false, Ok(_)) => Some(Failure::new("from_sequences:accepts-unequal", "sequences of unequal lengths accepted".to_string())),
                 (false, Err(_)) => None,
@@ -90,6 +100,7 @@ impl Sub for FromSequences {
                     }
                     f
                 }
+            }
             }
         });
         match f {
@@ -218,6 +229,25 @@ fn chain_run<A: Alphabet>(case: &ChainCase, info: &mut CaseInfo) -> Option<Failu
             let sb = twob.matrix()[i][j] as f64;
             if !close(sb, sbdef, 5e-5) {
                 return Some(Failure::new("to_scoring_with_base:value", format!("row {} symbol {} base {}: {} expected {}", i, j, base, sb, sbdef)));
+            }
+        }
+    }
+    // --- conversion traits: ScoringMatrix::from(weight) is to_scoring(); WeightMatrix::from(scoring) inverts it
+    let via_from = lightmotif::pwm::ScoringMatrix::<A>::from(weight.clone());
+    if via_from.background().frequencies() != two.background().frequencies() || (0..m).any(|i| via_from.matrix()[i].iter().zip(two.matrix()[i].iter()).any(|(a, b)| a.to_bits() != b.to_bits())) {
+        return Some(Failure::new("ScoringMatrix::from(weight)", "differs from weight.to_scoring()".to_string()));
+    }
+    let back = lightmotif::pwm::WeightMatrix::<A>::from(two.clone());
+    if back.background().frequencies() != bg.frequencies() {
+        return Some(Failure::new("WeightMatrix::from(scoring):background", "the background is not carried over".to_string()));
+    }
+    for i in 0..m {
+        for j in 0..k {
+            info.comparisons += 1;
+            let (w, b) = (weight.matrix()[i][j] as f64, back.matrix()[i][j] as f64);
+            // base-2 scores back to weights: 2^log2(w) = w; a zero weight (score -inf) comes back as 0
+            if !close(b, w, 2e-5) {
+                return Some(Failure::new("WeightMatrix::from(scoring):value", format!("row {} symbol {}: 2^score = {} but the weight was {}", i, j, b, w)));
             }
         }
     }
